@@ -166,3 +166,7 @@ impl<T> MapErrConst<T> for Result<T, IggyError> {
         ensures self is Ok ==> r == self, self is Err ==> r is Err,
     { match self { Ok(v) => Ok(v), Err(_) => Err(e) } }
 }
+
+// counters are shared atomic cells updated with wrapping arithmetic
+pub open spec fn wadd(a: u64, b: int) -> int { (a + b) % 0x1_0000_0000_0000_0000 }
+pub open spec fn wsub(a: u64, b: int) -> int { (a - b) % 0x1_0000_0000_0000_0000 }
